@@ -49,7 +49,7 @@ def what(t, v):
 def run(ctx):
     quick = ctx.quick
     rng = random.Random(ctx.seed)
-    ctx.mc("VecData_MC", "VecData_MC.cfg", must_cover=["Reset", "StepAny|Step"])
+    ctx.mc("VecData_MC", "VecData_MC.cfg" if quick else "VecData_MCt.cfg", must_cover=["Reset", "StepAny|Step"])
     ctx.mc("VecEnv_MC", "VecEnv_c12.cfg", deadlock=True, must_cover=["Exec", "FinishWait"])
 
     jobs = []
